@@ -149,6 +149,32 @@ func (m *c20Model) eval(e *pexpr, fields map[string]pval) (pval, bool) {
 		sb.WriteString(")")
 		m.trace = append(m.trace, sb.String())
 		return m.callResult(kind, e.name, args)
+	case "arr":
+		var parts []string
+		for _, a := range e.args {
+			v, failed := m.eval(a, fields)
+			if failed {
+				return pval{}, true
+			}
+			if v.void {
+				m.unspecified = true
+				return pval{}, true
+			}
+			parts = append(parts, v.text)
+		}
+		return pval{typ: "ARRAY", text: "[" + strings.Join(parts, ", ") + "]", truth: len(parts) > 0}, false
+	case "ucall":
+		// uf(a): the script's own function `function uf(a) { v2 = a; return a; }`
+		v, failed := m.eval(e.args[0], fields)
+		if failed {
+			return pval{}, true
+		}
+		if v.void {
+			m.unspecified = true
+			return pval{}, true
+		}
+		m.vars["v2"] = v
+		return v, false
 	case "add":
 		a, f1 := m.eval(e.args[0], fields)
 		if f1 {
@@ -223,6 +249,14 @@ func (e *pexpr) text() string {
 			parts = append(parts, a.text())
 		}
 		return e.name + "(" + strings.Join(parts, ", ") + ")"
+	case "arr":
+		var parts []string
+		for _, a := range e.args {
+			parts = append(parts, a.text())
+		}
+		return "[" + strings.Join(parts, ", ") + "]"
+	case "ucall":
+		return "uf(" + e.args[0].text() + ")"
 	case "add":
 		return "(" + e.args[0].text() + " + " + e.args[1].text() + ")"
 	case "eq":
@@ -235,6 +269,7 @@ var c20VarNames = []string{"v0", "v1", "v2", "v3", "neverset", "OPTIMIZE"}
 var c20FnNames = []string{"fa", "fb", "fc", "fd"}
 
 type c20Gen struct {
+	useUF  bool // the script defines `function uf(a) { v2 = a; return a; }`
 	c      *verifsim.Chooser
 	fnKind map[string]string
 	intVar map[string]bool // variables known to hold integers in every history
@@ -285,8 +320,42 @@ func (g *c20Gen) valueFn() string {
 	return names[g.c.Intn(len(names))]
 }
 
+// intOperand is an expression that certainly yields an integer.
+func (g *c20Gen) intOperand() *pexpr {
+	if g.c.Intn(3) == 1 {
+		var names []string
+		for _, n := range c20FnNames {
+			if k := g.fnKind[n]; k == "int" || k == "count" || k == "zero" {
+				names = append(names, n)
+			}
+		}
+		if len(names) > 0 {
+			e := &pexpr{kind: "call", name: names[g.c.Intn(len(names))]}
+			for j := g.c.Intn(2); j > 0; j-- {
+				e.args = append(e.args, &pexpr{kind: "lit", lit: g.lit()})
+			}
+			return e
+		}
+	}
+	return &pexpr{kind: "lit", lit: pInt(int64(g.c.Intn(4)))}
+}
+
 func (g *c20Gen) expr(d int) *pexpr {
-	switch g.c.Intn(6) {
+	switch g.c.Intn(8) {
+	case 6:
+		if d <= 0 {
+			return &pexpr{kind: "lit", lit: g.lit()}
+		}
+		e := &pexpr{kind: "arr"}
+		for j := g.c.Intn(4); j > 0; j-- {
+			e.args = append(e.args, g.expr(d-1))
+		}
+		return e
+	case 7:
+		if !g.useUF || d <= 0 {
+			return &pexpr{kind: "var", name: c20VarNames[g.c.Intn(5)]}
+		}
+		return &pexpr{kind: "ucall", args: []*pexpr{g.expr(d - 1)}}
 	case 0:
 		return &pexpr{kind: "lit", lit: g.lit()}
 	case 1:
@@ -306,9 +375,9 @@ func (g *c20Gen) expr(d int) *pexpr {
 		}
 		return e
 	case 4:
-		return &pexpr{kind: "add", args: []*pexpr{{kind: "lit", lit: pInt(int64(g.c.Intn(4)))}, {kind: "lit", lit: pInt(int64(1 + g.c.Intn(3)))}}}
+		return &pexpr{kind: "add", args: []*pexpr{g.intOperand(), g.intOperand()}}
 	default:
-		return &pexpr{kind: "eq", args: []*pexpr{{kind: "lit", lit: pInt(int64(g.c.Intn(3)))}, {kind: "lit", lit: pInt(int64(g.c.Intn(3)))}}}
+		return &pexpr{kind: "eq", args: []*pexpr{g.intOperand(), g.intOperand()}}
 	}
 }
 
@@ -361,6 +430,9 @@ func (g *c20Gen) script() ([]*pstmt, string) {
 		stmts = append(stmts, &pstmt{kind: "return", e: g.expr(2)})
 	}
 	var sb strings.Builder
+	if g.useUF {
+		sb.WriteString("function uf(a) { v2 = a; return a; }\n")
+	}
 	for _, s := range stmts {
 		switch s.kind {
 		case "assign":
@@ -479,6 +551,7 @@ func (p *c20) runAPI(c *verifsim.Chooser, st *Stats, render bool) *Outcome {
 	for i := 0; i < nf; i++ {
 		g.fnKind[c20FnNames[i]] = c20FnKinds[c.Intn(len(c20FnKinds))]
 	}
+	g.useUF = c.Intn(3) == 1
 	stmts, text := g.script()
 	o.Digest.Str(text)
 	model := &c20Model{vars: map[string]pval{}, fns: map[string]string{}, counts: map[string]int64{}}
@@ -586,9 +659,19 @@ func (p *c20) runAPI(c *verifsim.Chooser, st *Stats, render bool) *Outcome {
 			// (replacing the earlier one), without preparing again
 			name := c20FnNames[c.Intn(nf)]
 			kind := c20FnKinds[c.Intn(len(c20FnKinds))]
-			if old := g.fnKind[name]; (old == "void" || old == "panic") != (kind == "void" || kind == "panic") {
-				// keep statement-position functions void (the script was
-				// generated for that) and value functions valued
+			// the script was generated for functions of a certain class
+			// (statement-position: void/panic; integer-valued: operands of +
+			// and ==; any other value): stay within the class
+			class := func(k string) int {
+				switch k {
+				case "void", "panic":
+					return 0
+				case "int", "count", "zero":
+					return 1
+				}
+				return 2
+			}
+			if class(g.fnKind[name]) != class(kind) {
 				break
 			}
 			g.fnKind[name] = kind
